@@ -57,9 +57,18 @@ Cfg(r) == [n |-> Len(r.pubs), m |-> r.m, holder |-> IF "holder" \in DOMAIN r THE
            knows |-> IF "knows" \in DOMAIN r THEN r.knows ELSE <<>>]
 \* keys in script order: BIP67 order (wallets created with sort_keys) or, for wallets created with sort_keys=False,
 \* the order in which all of them were given the keys (r.listing)
-ScriptKeys(r) == IF r.sorted THEN LET sc == TheScript(Cfg(r), RankOf(r.pubs)) IN [i \in 1..Len(sc.keys) |-> r.pubs[sc.keys[i]]]
-                 ELSE [i \in 1..Len(r.listing) |-> r.pubs[r.listing[i]]]
+\* (one key set per address of the group: the child keys at that address's path)
+ScriptKeysOf(r, pubs) ==
+                 IF r.sorted THEN LET sc == TheScript(Cfg(r), RankOf(pubs)) IN [i \in 1..Len(sc.keys) |-> pubs[sc.keys[i]]]
+                 ELSE [i \in 1..Len(r.listing) |-> pubs[r.listing[i]]]
+ScriptKeys(r) == ScriptKeysOf(r, r.pubs)
 ScriptBytes(r) == MultisigScript(r.m, ScriptKeys(r))
+\* the funded output an input spends (r.funds: [txid, vout, amount] in wire byte order), 0 if there is none
+FundOf(r, in) == LET I == {k \in 1..Len(r.funds) : r.funds[k].txid = in.txid /\ r.funds[k].vout = in.vout} IN
+                 IF I = {} THEN 0 ELSE CHOOSE k \in I : TRUE
+\* ceremony records: r.groups = the key sets of the addresses the spend may draw on, r.funds[k].g = the address of output k
+KeysOfFund(r, k) == ScriptKeysOf(r, r.groups[r.funds[k].g])
+ScriptOfFund(r, k) == MultisigScript(r.m, KeysOfFund(r, k))
 Kind(wt) == IF wt = "legacy" THEN "p2sh-multisig" ELSE IF wt = "segwit" THEN "p2wsh-multisig" ELSE "p2sh-p2wsh-multisig"
 WitnessProgram(rs) == Cat(<<B(<<0, 32>>), H("sha256", B(rs))>>)           \* OP_0 <sha256(witness script)>
 \* payload term of the destination and the destination built from its value
@@ -160,23 +169,19 @@ BodyOf(p) == IF ~p.ok THEN NoBody
              ELSE [version |-> p.tx.version, locktime |-> p.tx.locktime,
                    ins |-> [i \in 1..Len(p.tx.ins) |-> [txid |-> p.tx.ins[i].txid, vout |-> p.tx.ins[i].vout, seq |-> p.tx.ins[i].seq]],
                    outs |-> p.tx.outs]
-\* the funded output an input spends (r.funds: [txid, vout, amount] in wire byte order), 0 if there is none
-FundOf(r, in) == LET I == {k \in 1..Len(r.funds) : r.funds[k].txid = in.txid /\ r.funds[k].vout = in.vout} IN
-                 IF I = {} THEN 0 ELSE CHOOSE k \in I : TRUE
 JudgeParsed(r, p) ==
     IF ~p.ok THEN [v |-> "unparsable", need |-> <<>>]
     ELSE IF \E i \in 1..Len(p.tx.ins) : FundOf(r, p.tx.ins[i]) = 0
     THEN [v |-> "spends-an-outpoint-that-is-not-an-output-of-the-common-address", need |-> <<>>]
     ELSE IF \E i, j \in 1..Len(p.tx.ins) : i # j /\ p.tx.ins[i].txid = p.tx.ins[j].txid /\ p.tx.ins[i].vout = p.tx.ins[j].vout
     THEN [v |-> "spends-an-outpoint-twice", need |-> <<>>]
-    ELSE LET rs == ScriptBytes(r)
-             keys == ScriptKeys(r)
+    ELSE LET keysOf == [i \in 1..Len(p.tx.ins) |-> KeysOfFund(r, FundOf(r, p.tx.ins[i]))]
              tx == [p.tx EXCEPT !.ins = [i \in 1..Len(p.tx.ins) |->
                        [txid |-> p.tx.ins[i].txid, vout |-> p.tx.ins[i].vout, script |-> p.tx.ins[i].script,
                         seq |-> p.tx.ins[i].seq, wit |-> p.tx.ins[i].wit, kind |-> Kind(r.wt),
                         amount |-> r.funds[FundOf(r, p.tx.ins[i])].amount,
-                        pkh |-> <<>>, pub |-> <<>>, keys |-> keys, m |-> r.m]]]
-             js == [i \in 1..Len(tx.ins) |-> JudgeInput(r, tx, i, rs, keys)]
+                        pkh |-> <<>>, pub |-> <<>>, keys |-> keysOf[i], m |-> r.m]]]
+             js == [i \in 1..Len(tx.ins) |-> JudgeInput(r, tx, i, MultisigScript(r.m, keysOf[i]), keysOf[i])]
              need == Concat([i \in 1..Len(js) |-> js[i].need]) IN
          IF need # <<>> THEN [v |-> "need", need |-> need]
          ELSE IF \A i \in 1..Len(js) : js[i].v = "valid" THEN [v |-> "valid", need |-> <<>>]
@@ -186,7 +191,7 @@ JudgeTx(r, raw) == LET p == ParseTx(raw)
 
 \* ------------------------------------------------------------------ kind "ceremony"
 \* the event as an action of Cosign.tla; the body a proposer chose is what its transaction shows
-A(e, cons) == [op |-> e.a.op, w |-> e.a.w, v |-> e.a.v, form |-> e.a.form,
+A(e, cons) == [op |-> e.a.op, w |-> e.a.w, v |-> e.a.v, form |-> e.a.form, ins |-> SetOf(e.a.ins), key |-> e.a.key,
                body |-> IF e.tx > 0 THEN cons[e.tx].body ELSE NoBody]
 \* first clause in which the observation e of the target wallet differs from candidate state st ("" = consistent)
 \* cons: verdicts of JudgeTx per distinct raw transaction
@@ -200,7 +205,9 @@ Why(r, cfg, st, e, cons, rs) ==
     ELSE IF e.nsig # NSig(cp) THEN "signature-count"
     ELSE IF (e.verified \/ e.verify) /\ ~valid THEN "verifies-with-fewer-than-m-signers"
     ELSE IF ~(e.verified /\ e.verify) /\ valid THEN "m-signers-do-not-verify"
-    ELSE IF e.rs # <<>> /\ e.rs # rs THEN "redeemscript-differs-from-reference"
+    ELSE IF \E i \in 1..Len(e.rs) : i <= Len(cp.body.ins) /\ FundOf(r, cp.body.ins[i]) > 0
+                                     /\ e.rs[i] # ScriptOfFund(r, FundOf(r, cp.body.ins[i]))
+         THEN "redeemscript-differs-from-reference"
     ELSE IF e.tx > 0 /\ cons[e.tx].v = "valid" /\ ~valid THEN "network-valid-with-fewer-than-m-signers"
     ELSE IF e.tx > 0 /\ cons[e.tx].v # "valid" /\ valid THEN "m-signers-but-not-network-valid: " \o cons[e.tx].v
     ELSE IF e.pushed /\ ~(sendop /\ valid) THEN "broadcast-without-m-signers"
